@@ -40,8 +40,8 @@ plan('C11',
          Job(H, 'loop', 'asan', quick=40, thorough=1500, shards=(4, 8), params=dict(maxbig=200000), tparams=dict(maxbig=2000000), batch=5, case_timeout=200),
          Job(H, 'loop', 'plain', quick=40, thorough=1500, shards=(4, 8), params=dict(maxbig=200000), tparams=dict(maxbig=2000000), batch=5, case_timeout=200),
          Job(H, 'handshake', 'asan', quick=600, thorough=20000, shards=(2, 4), params=dict(dump=1), batch=100),
-         Job(H, 'hostile', 'asan', quick=120, thorough=20000, shards=(6, 12), batch=25, case_timeout=200),
-         Job(H, 'hostile', 'plain', quick=400, thorough=10000, shards=(2, 4), batch=25, case_timeout=200),
+         Job(H, 'hostile', 'asan', quick=120, thorough=4800, shards=(6, 16), batch=25, case_timeout=200),
+         Job(H, 'hostile', 'plain', quick=400, thorough=10000, shards=(2, 8), batch=25, case_timeout=200),
      ],
      post=post,
      assumptions=COMMON_ASSUME + ['empty results of receive() (returned for control frames) are ignored: the property speaks of messages of non-zero length',
